@@ -26,8 +26,8 @@ import (
 
 // translationsDet: like translations, but which messages are translated depends on the id only
 // (not on the order in which the files are visited).
-func translationsDet(reg *template.Registry, kind int) *memBundle {
-	b := &memBundle{msgs: map[uint64]*soymsg.Message{}, plural: pluralEnglish}
+func translationsDet(reg *template.Registry, kind int) *jsMemBundle {
+	b := &jsMemBundle{msgs: map[uint64]*soymsg.Message{}, plural: pluralEnglish}
 	for _, m := range allMsgNodes(reg) {
 		if m.ID%5 == 0 {
 			continue
@@ -72,7 +72,7 @@ func detObserve(fs []srcFile, globals data.Map, dataByTmpl map[string]string, ki
 	mb := translationsDet(reg, kind)
 	for _, f := range reg.SoyFiles {
 		for _, fm := range []string{"es5", "es6"} {
-			for mi, b := range []*memBundle{nil, mb} {
+			for mi, b := range []*jsMemBundle{nil, mb} {
 				js, ok := jsWrite(reg, f.Name, fm, b)
 				if !ok {
 					js = "ERR " + js
